@@ -39,6 +39,8 @@ type C10Line struct {
 	TimeField2  string `json:"time_field2,omitempty"`
 	TimeFormat2 string `json:"time_format2,omitempty"`
 	OffsetMs2   int64  `json:"offset_ms2,omitempty"`
+	// an absolute time text used verbatim instead of request time + offset (centuries away from any clock)
+	AbsTime string `json:"abs_time,omitempty"`
 }
 
 // C10Case is one explicit run.
@@ -215,6 +217,9 @@ func (c *C10Case) body(now time.Time) []byte {
 	for i, l := range c.Lines {
 		text := l.Text
 		if l.Kind == "doc" && l.TimeField != "" {
+			if l.AbsTime != "" {
+				text = strings.Replace(text, "@TIME@", l.AbsTime, 1)
+			}
 			text = strings.Replace(text, "@TIME@", formatTime(now.Add(time.Duration(l.OffsetMs)*time.Millisecond), l.TimeFormat), 1)
 			if l.TimeField2 != "" {
 				text = strings.Replace(text, "@TIME2@", formatTime(now.Add(time.Duration(l.OffsetMs2)*time.Millisecond), l.TimeFormat2), 1)
@@ -320,8 +325,8 @@ func (c *C10Case) reference1(body []byte, now time.Time) (docs []storedDoc, ok b
 				}
 			}
 			if parsed {
-				delay := now.Sub(dt)
-				if delay <= time.Duration(c.DriftMs)*time.Millisecond && -delay <= time.Duration(c.FutureMs)*time.Millisecond {
+				// compared as instants, not as a duration: the distance to a time centuries away does not fit one
+				if !dt.Before(now.Add(-time.Duration(c.DriftMs)*time.Millisecond)) && !dt.After(now.Add(time.Duration(c.FutureMs)*time.Millisecond)) {
 					mid = uint64(dt.UnixMilli())
 				}
 				break
@@ -723,6 +728,9 @@ func GenC10(seed uint64, thorough bool, maxDoc int) *C10Case {
 				l.TimeFormat = []string{"es", "rfc3339", "rfc3339nano", "garbage"}[r.Intn(4)]
 				offs := []int64{0, -c.DriftMs - 1000, -c.DriftMs, -c.DriftMs + 1000, c.FutureMs - 1000, c.FutureMs, c.FutureMs + 1000, -5, 7, -c.DriftMs * 3}
 				l.OffsetMs = offs[r.Intn(len(offs))]
+				if r.Bool(0.04) {
+					l.AbsTime = []string{"2400-01-01T00:00:00Z", "2400-01-01 00:00:00.000", "2262-04-12T00:00:00Z", "9999-12-31T23:59:59.999999999Z", "1600-01-01T00:00:00Z", "0001-01-01 00:00:00.000", "1677-09-21T00:12:43Z"}[r.Intn(7)]
+				}
 				first := fmt.Sprintf(`,"%s":"@TIME@"`, l.TimeField)
 				if r.Bool(0.3) {
 					// two time fields naming different instants in different formats: the one that comes first
